@@ -470,6 +470,7 @@ def evaluate_case(c, hl, ml, verdict, counts=None):
     tainted = None            # first property failure of this history (later states inherit it)
     entered_unsynced = False  # SYNCMODE_AUTO entered from MANUAL with LPs that were not in sync
     stale_types = False
+    deficit = prev_deficit = False
     for j, op in enumerate(ops):
         if j >= len(hl):
             break
@@ -486,22 +487,23 @@ def evaluate_case(c, hl, ml, verdict, counts=None):
             verdict.add("exception:" + name, "the implementation threw in %s: %s" % (name, bytes.fromhex(ho.add.split("EXC=")[1].split()[0]).decode(errors="replace")),
                         {"ops": ops[1:j + 1], "implementation": hl[j][:3000]})
             break
-        # ---- correspondence with the model
-        if j < len(ml) and ho.core != ml[j]:
-            sec, fld = first_diff(ho.core, ml[j])
-            pf = drift_failures(ho) if ho.mode == 1 else []
-            if sec == "R" and only_rounding_direction(ho, ml[j]):
-                verdict.add("real-rounding-direction:" + name,
-                            "after %s the real LP of the implementation is an adjacent image of its rational LP but not the one the "
-                            "model's rounding oracle (nearest-even for the conversion operator, truncation for mpq_get_d) predicts" % name,
-                            {"ops": ops[1:j + 1], "implementation": ho.core[:3000], "model": ml[j][:3000]}, True)
+        # ---- memory safety of removals: the GMP add entry points do not grow the scaleExp arrays of the rational LP, every
+        # removal then reads and writes beyond them (heap corruption: what follows is not reproducible)
+        if ho.Q is not None and "sxQ" in ho.extras:
+            sr, sc = (int(x) for x in ho.extras["sxQ"].split(","))
+            if sr < ho.Q.m or sc < ho.Q.n:
+                if not deficit:
+                    verdict.add("gmp-add-scaleexp-not-grown",
+                                "after %s the scaleExp arrays of the rational LP have sizes %d,%d for %d rows and %d columns" % (name, sr, sc, ho.Q.m, ho.Q.n),
+                                {"ops": ops[1:j + 1], "implementation": hl[j][:2000]})
+                deficit = True
             else:
-                verdict.add("mismatch:%s:%s:%s" % (name, sec, fld),
-                            "implementation and model disagree after op %d (%s): %s/%s\n impl : %s\n model: %s" % (j, op[:100], sec, fld, ho.core[:1500], ml[j][:1500]),
-                            {"ops": ops[1:j + 1], "implementation": ho.core[:4000], "model": ml[j][:4000],
-                             "correspondence": "SyncModel.step (rnd_impl) vs SoPlexBase<double>", "property_failures_at_this_state": pf},
-                            no_input=not pf)
+                deficit = False
+        if prev_deficit and (name[1:] in ("RR", "RC", "RRP", "RCP", "RRI", "RCI", "RRG", "RCG")) and (name[0] == "q" or ho.mode == 1):
+            if counts is not None:
+                counts("history-cut:removal-after-gmp-add")
             break
+        prev_deficit = deficit
         # ---- the property on the implementation's own observation
         if name == "M" and toks[1] == "1" and prev is not None and prev.mode == 2 and (drift_failures(prev) or type_failures(prev)):
             entered_unsynced = True
@@ -537,6 +539,22 @@ def evaluate_case(c, hl, ml, verdict, counts=None):
                 fails.append(("entered", ent))
             if counts is not None and ent is not None:
                 counts("entered-checked")
+        # ---- correspondence with the model
+        if j < len(ml) and ho.core != ml[j]:
+            sec, fld = first_diff(ho.core, ml[j])
+            pf = [list(x) for x in fails]
+            if sec == "R" and only_rounding_direction(ho, ml[j]):
+                verdict.add("real-rounding-direction:" + name,
+                            "after %s the real LP of the implementation is an adjacent image of its rational LP but not the one the "
+                            "model's rounding oracle (nearest-even for the conversion operator, truncation for mpq_get_d) predicts" % name,
+                            {"ops": ops[1:j + 1], "implementation": ho.core[:3000], "model": ml[j][:3000]}, True)
+            else:
+                verdict.add("mismatch:%s:%s:%s" % (name, sec, fld),
+                            "implementation and model disagree after op %d (%s): %s/%s\n impl : %s\n model: %s" % (j, op[:100], sec, fld, ho.core[:1500], ml[j][:1500]),
+                            {"ops": ops[1:j + 1], "implementation": ho.core[:4000], "model": ml[j][:4000],
+                             "correspondence": "SyncModel.step (rnd_impl) vs SoPlexBase<double>", "property_failures_at_this_state": pf},
+                            no_input=not pf)
+            break
         # areLPsInSync: (a) the routine as it is coded, re-evaluated on the observation; (b) against the definition
         if ho.Q is not None and "sync" in ho.extras:
             want = code_areLPsInSync(ho)
@@ -603,7 +621,10 @@ def evaluate(exe, model, cases, tag, counts=None):
             if rc1 != 0 and k == len(hb) - 1 and len(hb[k]) < len(c["ops"]) + 1:
                 j = len(hb[k]) - 1
                 op = c["ops"][j] if 0 <= j < len(c["ops"]) else "?"
-                v.add("crash:" + op.split()[0], "the implementation crashed (rc=%d) in operation %r" % (rc1, op[:100]),
+                unsafe = any(o_.split()[0] in ("gAR", "gAC", "gARS", "gACS") for o_ in c["ops"][:j]) and \
+                    op.split()[0][1:] in ("RR", "RC", "RRP", "RCP", "RRI", "RCI", "RRG", "RCG")
+                v.add("crash:removal-after-gmp-add" if unsafe else "crash:" + op.split()[0],
+                      "the implementation crashed (rc=%d) in operation %r" % (rc1, op[:100]),
                       {"ops": c["ops"][:j + 1], "stderr": herr})
         res.append(v)
     if rc2 != 0:
@@ -653,6 +674,7 @@ class Gen:
     def __init__(self, rng, mp, risky):
         self.r, self.mp, self.risky = rng, mp, risky
         self.inf = INF
+        self.gmp_added = False
 
     # ---- values (as Fractions; real arguments are always exactly representable doubles)
     def real_coef(self):
@@ -794,6 +816,8 @@ class Gen:
             kinds += ["E"] * 4
         if r.random() < 0.03:
             kinds = ["CL"]
+        if self.gmp_added:
+            kinds = [k_ for k_ in kinds if k_ not in ("RR", "RC", "RRP", "RCP", "RRI", "RCI", "RRG", "RCG")] or ["AR"]
         kd = r.choice(kinds)
         if iface == "g" and kd not in ("AR", "AC", "ARS", "ACS", "L", "G", "W", "U", "B", "O", "RV", "E"):
             iface = "q"
@@ -910,6 +934,7 @@ class Gen:
         o = parse_obs(lines[1])
         ops = []
         self.inf = INF
+        self.gmp_added = False
         tries = 0
         while len(ops) < nops and tries < 4 * nops:
             tries += 1
@@ -921,6 +946,10 @@ class Gen:
             if ans.endswith(" INVALID") or ans.endswith(" UNMODELLED"):
                 continue
             ops.append(line)
+            if line.split()[0] in ("gAR", "gAC", "gARS", "gACS") and o.mode != 0:
+                self.gmp_added = True
+            if line.split()[0] in ("qCL", "SQ", "XS") or (line.split()[0] == "rCL" and o.mode == 1) or line == "M 0":
+                self.gmp_added = False
             o = parse_obs(ans)
         return {"head": head, "ops": ops}
 
@@ -934,6 +963,10 @@ def probes(ck, exe):
     cases = [{"head": "1 -1", "ops": base + ["gAR 0/1 1/1 1 4 0/1"]},
              {"head": "1 -1", "ops": base + ["gAC 1/1 0/1 1/1 1 6 0/1"]},
              {"head": "1 1", "ops": ["gAR -2/1 5/1 2 0 0/1 1 -4/1", "gAR -1/1 6/1 1 0 -1/1", "rE 0 0 1:1", "rCC 0 0:0 -1:0 3:0 1 1 1:0"]}]
+    # addRowsRational(const LPRowSetRational&) in SYNCMODE_AUTO with a coefficient that underflows to 0.0
+    uflow = {"head": "1 -1", "ops": ["rAC %s %s %s 1 0 %s" % (d0, dy(-5), inf, dy(3)), "qRR 0",
+                                     "qARS 2 -1/1 0/1 0 -3/1 1/3 2 0 1/1" + "0" * 400 + " 1 1/1"]}
+    cases.append(uflow)
     # DESIGN.md section 9 item 8: after a floating-point solve with persistent scaling the real LP is stored scaled; the
     # copy made for an exact solve in SYNCMODE_ONLYREAL must still be the LP the accessors report
     scaled = {"head": "0 -1 2 1", "ops": ["rAC %s %s %s 0" % (d1, d0, inf), "rAC %s %s %s 0" % (d1, d0, dy(10)),
@@ -958,6 +991,15 @@ def probes(ck, exe):
                                      "after a floating-point solve with persistent scaling, _syncLPRational (SYNCMODE_ONLYREAL, before an exact "
                                      "solve) copies the scaled LP: the rational LP differs from the LP the real accessors report in %s" % f,
                                      {"head": c["head"], "ops": c["ops"][:j], "implementation": line[:3000], "failure": f})
+                continue
+            if c is uflow:
+                f = mirror_failures(o)
+                if f:
+                    ck.violation("rational-multi-add-underflow:real-row-col-files",
+                                 "addRowsRational(LPRowSetRational) in SYNCMODE_AUTO with a coefficient whose double image is 0.0 leaves an "
+                                 "uninitialised entry in the column file of the real LP: %s" % f,
+                                 {"head": c["head"], "ops": c["ops"][:j], "implementation": line[:3000], "failure": f})
+                    break
                 continue
             f = mirror_failures(o) or (drift_failures(o) if o.mode == 1 else [])
             if f:
